@@ -2,6 +2,7 @@ import QibProofs.Lemmas.EncodeSum
 import QibProofs.Lemmas.EncodePrune
 import QibProofs.Lemmas.EncodeTotal
 import QibProofs.Lemmas.EncodeExtra
+import QibProofs.Lemmas.EncodeInv
 import QibProofs.Lemmas.EncodeParityEquiv
 /-!
 C12 — Parity encoding is a faithful parity-basis representation.
@@ -122,6 +123,12 @@ theorem C12_parity_encode_tol_GQ (tol : ℚ) (fop : FieldOp GQ) (op : PauliOp GQ
     ∃ L raw, fieldCheck fop = .ok L ∧ encodeRaw .parity fop = .ok raw ∧ op = raw.removeZero (fun w => w.absLe tol) ∧
       ∀ r c, ‖(PauliOp.mat GQ.toC L op - encMat GQ.toC .parity L fop) r c‖ ≤ ((raw.length - op.length : ℕ) : ℝ) * (tol : ℝ) :=
   C12_parity_encode_tol GQ.scalarHom _ (tol : ℝ) (fun w hw => GQ.absLe_norm w tol hw) fop op h hwf
+
+/-- shape of the encoded operator: every string has length `L` (so `PauliOp.mat φ L` is exactly what
+`PauliOperator.as_matrix` sums), its phase is `q ∈ {0, 1}` (the sign sits in the weight) and no string occurs twice -/
+theorem C12_encode_strings {α : Type} [EncScalar α] (isZ : α → Bool) (fop : FieldOp α) (op : PauliOp α) (L : ℕ)
+    (hL : fieldCheck fop = .ok L) (h : encode .parity isZ fop = .ok op) :
+    (∀ e ∈ op, e.1.HasLen L ∧ e.1.q.val < 2) ∧ (op.map (·.1)).Nodup := encode_good .parity isZ fop op L hL h
 
 /-- totality on valid operators -/
 theorem C12_parity_encode_total {α : Type} [EncScalar α] (isZ : α → Bool) (fop : FieldOp α) (L : ℕ)
